@@ -31,12 +31,12 @@ CHECKS = {
          'Trusted: Coq kernel + vm_compute, recorders, slack e bounding float32 projection rounding; torch.sort sorts, torch.median is the lower median (both checked through tokb on every recorded node).'),
 
  'C02': ('DESIGN.md §4 C02',
-         'Coq proof (invariant over the fit loop) of state coherence for every history/switch setting + vm_compute correspondence of the real RFM.fit with tagged stubs + residual check of real fits incl. mpmath closed-form Gram matrix',
+         'Coq proof (invariant over the fit loop) of state coherence for every history/switch setting + decision operators / snapshot table / loop skeleton re-translated from the source each run and proved equal to the model (selectarith) + vm_compute correspondence of the real RFM.fit with tagged stubs + residual check of real fits incl. mpmath closed-form Gram matrix',
          'Theorem: for every score history, iteration budget, early-stop and best-restore setting the stored coefficients were solved with exactly the stored feature-matrix version and bandwidth (hypothesis: nothing is worse than the infinite sentinel; refuted-without-hypothesis example). '
          'The real loop is driven with scripted scores and tagged solve/AGOP stubs and compared with the model in Coq on binary64; real leaf fits (all CPU kernels, solvers, dtypes, adaptive bandwidth) are checked for (K+lambda I) alpha = Y with K of the stored state and, for n<=10, with the Gram matrix of the documented closed form.',
          'Trusted: Coq kernel + vm_compute (PrimFloat), stubs, LAPACK solve contract (residual of a returned solution is small), mpmath. The ridge identity itself is numeric (tolerance 200 n u scale).'),
  'C03': ('DESIGN.md §4 C03',
-         'Coq proof (loop invariant, strict-weak-order reasoning; generic score type with Q and binary64 instances) + exhaustive/random scripted histories through the real RFM.fit compared by vm_compute',
+         'Coq proof (loop invariant, strict-weak-order reasoning; generic score type with Q and binary64 instances) + improvement / early-stop operators, sentinels and direction-after-override re-translated from the source each run and proved equal to the model (selectarith) + exhaustive/random scripted histories through the real RFM.fit compared by vm_compute',
          'Theorem for every finite score history, budget, direction, stop predicate: the returned coefficients/M/sqrtM/bandwidth all carry the index of the FIRST evaluated iterate that no evaluated iterate beats; with early stopping the evaluations end at the first iterate worse than the best so far by more than the multiplier; never crashes. '
          'All histories over a small alphabet (budgets 0-5) and random binary64 histories with ties are run through the real loop (tagged stubs) and compared bit-exactly with the model.',
          'Trusted: Coq kernel + vm_compute (PrimFloat primitives as the model of Python float comparison/multiplication), scripted stubs. NaN scores excluded as the property states.'),
@@ -46,7 +46,7 @@ CHECKS = {
          'One-hot probe leaves expose the weight matrix of the real code; weights are certified against the real-valued model by `interval`, truncations by a rational relation in Coq, leaf invocation sets and T->0 by oracle.',
          'Trusted: Coq kernel, vm_compute, Interval tactic, real-number axioms of the standard library, probe leaves. float32 tolerance 5e-6+2e-5 w; cut-off ties within 4e-6 accepted either way.'),
  'C10': ('DESIGN.md §4 C10',
-         'Coq proof (fold invariant, generic score/temperature types with Q and binary64 instances) + exhaustive/random scripted tunings through the real fit_temperature compared by vm_compute + recomputation of recorded scores on real fits',
+         'Coq proof (fold invariant, generic score/temperature types with Q and binary64 instances) + acceptance rule / encoding of fit_temperature re-translated from the source each run and proved to be the model\'s step (selectarith) + exhaustive/random scripted tunings through the real fit_temperature compared by vm_compute + recomputation of recorded scores on real fits',
          'Theorem for every candidate list, score function, direction and initial temperature: stored temperature is a candidate with optimal score, recorded best = its score, recorded results = true scores, never worse than hard routing when a candidate <= 0 is present. '
          'The real fit_temperature runs on a manual tree with a scripted metric and is compared bit-exactly with the model; on real fits every recorded score is recomputed from predict/predict_proba.',
          'Trusted: Coq kernel + vm_compute (PrimFloat), scripted metric object patched into the harness process only, numpy metric re-implementations.'),
@@ -62,7 +62,7 @@ CHECKS = {
          'The real converter (K 2..12, count grids incl. zeros and 1000:1) is compared with the model and its _C/_invA/_prior are checked in Coq.',
          'Trusted: Coq kernel + vm_compute, MathComp 1.15, float32->Q printing; torch.linalg.qr / inv accuracy is checked per instance (converter_okb, delta 1e-4), not assumed.'),
  'C16': ('DESIGN.md §4 C16',
-         'Coq proofs over Q (and R for sqrt/ln) that every metric is bounded by its perfect-prediction value in the declared direction + vm_compute / interval correspondence of Metric.compute with the textbook definitions',
+         'Coq proofs over Q (and R for sqrt/ln) that every metric is bounded by its perfect-prediction value in the declared direction + metric classes re-translated from the source each run (directions, torch op sequences, scikit-learn calls) and proved equal to the model (metricops) + vm_compute / interval correspondence of Metric.compute with the textbook definitions',
          'Theorems: mse/mae/brier/log-loss >= 0 with 0 at perfect predictions, rmse monotone in mse; accuracy/F1/AUC <= 1 with 1 at perfect predictions (AUC with ties counted one half); direction table. '
          'All 8 metrics are run on perfect, constant, adversarial, tied and random arrays and compared with the Q model in Coq (log-loss by interval lemmas) and with exact Fraction re-statements; flags compared exhaustively.',
          'Trusted: Coq kernel + vm_compute, Interval tactic, real-number axioms; float32 tolerance 3e-6 relative; sklearn clipping below 1e-6 is outside the quantifier.'),
@@ -90,7 +90,7 @@ CHECKS = {
          'partial: thin model; equality of results is observed. Trusted: Coq kernel + vm_compute, recording subclass.'),
 
  'C05': ('DESIGN.md §4 C05',
-         'Coq proofs (Reals, lists of any dimension) that each kernel\'s tensor-operation sequence equals the documented closed form + interval-certified correspondence of real kernel-matrix entries + mpmath closed-form oracle',
+         'Coq proofs (Reals, lists of any dimension) that each kernel\'s tensor-operation sequence equals the documented closed form + the op sequences re-translated from the source each run by symbolic execution of a generic entry and proved equal to the model (kernelops) + interval-certified correspondence of real kernel-matrix entries + mpmath closed-form oracle',
          'Theorems for every dimension, transform (none/diagonal/full), exponent, bandwidth: op sequence = exp(-||T(x-z)||_p^q / L^q) (L2, Lpq, product) and ((1-c) mean exp(..)+c)^power (sum-power); the memory-light expansion is the quadratic form of the difference exactly for symmetric M (counterexample without symmetry); symmetry, unit diagonal, range (0,1]. '
          'Entries of Kernel.get_kernel_matrix (float64/float32, all CPU kernels, every boundary (p,q) combination, bandwidths 1e-2..1e3, coincident/far/high-dimensional points) are certified against the op-sequence model by `interval` and compared with mpmath closed forms; aliases exhaustively; PSD tested numerically.',
          'partial: the PSD clause (Schoenberg) is stated, not proved. Trusted: Coq kernel, Interval tactic, real-number axioms, mpmath; tolerances 1e-9 (float64), 2e-5 (float32), (sqrt u)^q scale for the light kernel.'),
@@ -108,7 +108,7 @@ CHECKS = {
          'partial: matrix root (SVD) is a contract (checked numerically), gradient values are C04; the 1e-8 diagonal ridge that the matrix-power routine adds in place is part of the model. KNOWN FINDING: center_grads=True is batch-size dependent.'),
 
  'C19': ('DESIGN.md §4 C19',
-         'Coq proofs (Reals) of scale invariance of the Laplace-family closed forms and of homogeneity of the lower median (sorting commutes with positive scaling) + vm_compute order-statistic check of the stored bandwidth + rescaling differential',
+         'Coq proofs (Reals) of scale invariance of the Laplace-family closed forms, homogeneity of the lower median and of the closed-form L2 gradient, and the composition theorem (a whole fit commutes with rescaling when its components are homogeneous; solver arbitrary) + vm_compute order-statistic check of the stored bandwidth + rescaling differential',
          'Theorems for every dimension, transform, exponent, c > 0: K_{cL}(cx, cz) = K_L(x, z) for the L2, product and Lpq kernels; lower_median(c * l) = c * lower_median(l). '
          'After real adaptive fits (l2, l2_high_dim, l1, lpq; iters 0-4; early stop / best-restore) the stored bandwidth is compared with base x lower median of the pairwise kernel-norm distances of the transformed training points under the stored feature matrix (order-statistic claim checked in Coq), and predictions on inputs rescaled by 1e-3..1e3 are compared with the unscaled fit.',
          'partial: that a whole fit commutes with scaling uses the solver/median contracts; float effects (eps mask, 1e-30) are bounded by tolerances. Trusted: Coq kernel, vm_compute, real-number axioms, float64 distance recomputation.'),
